@@ -1,9 +1,8 @@
 // govc:bounded property=C11 dir=pkg/resmgr/cache
 // Bounded stand-in (NOT a proof) for the classification part of cache.RefreshPods / cache.RefreshContainers.
-// Why bounded: RefreshPods contains a channel receive, which the verifier rejects for the whole function, and the
-// "removed == not listed" part of RefreshContainers needs the local set `valid` (a map[string]struct{}) to survive
-// the call to InsertContainer, whose frame cannot be stated (the built-in file-system ghost state written by Save
-// has no name in modifies clauses and `struct{}` is not accepted as a type expression in quantifiers).
+// Status: CROSS-CHECK ONLY since RefreshPods and the exact classification of RefreshContainers are proved (channel
+// receive modelled as an arbitrary value; `unit` spec type; map-iteration `seen` keys) - see verif_contracts_c11.go in
+// pkg/resmgr/cache. It is kept because it exercises the same clauses on the real code with concrete inputs.
 // What is checked on the real code, for every case: no panic; after RefreshPods(list) the cached pods are exactly
 // the listed ones, no cached container belongs to an unlisted pod, the returned containers are exactly the removed
 // ones and are marked stale, the returned pods are exactly the removed/inserted ones; after
